@@ -49,7 +49,7 @@ def run(chk):
     lines += gen_shapes.make_targeted(chk.seed * 15485863 + 18, 1600 if chk.quick else 12000, ["oct_q", "oct_q", "bds_q", "box_q"], start=200000, which=["ubie", "ubie", "ubie", "swap"])
     # non-dividing divisors in every affine transformer; fold / expand / map / remove with both index orders;
     # relation_with arguments of smaller space dimension
-    lines += gen_shapes.make_targeted(chk.seed * 49979687 + 28, 420 if chk.quick else 5000, KINDS, start=400000, which=["affine_div", "fold", "relarg"])
+    lines += gen_shapes.make_targeted(chk.seed * 49979687 + 28, 600 if chk.quick else 6000, KINDS, start=400000, which=["affine_div", "fold", "relarg", "cg", "simplify"])
     lines += gen_shapes.make_targeted(chk.seed * 67867967 + 38, 300 if chk.quick else 4000, ["oct_q", "bds_q"], start=500000, which=["fold"])
     out, byid = shapescheck.run_cases(chk, "C04", shapescheck.corpus_cases("C04") + lines, "c04", owner)
     shapescheck.account(chk, out, byid, "C04_* (tightness of closed forms, exactness of the comparisons, best abstraction) + verified equivalence / supremum")
